@@ -26,12 +26,15 @@
  *         V      uv_write of 16 MiB that the peer never reads: POLLOUT stays requested, the handle is
  *                polled also while not reading; q then resets (unread data at the peer)
  *   beh:  S<tok> T C   inside the k-th read callback
- *   allocs: <len> | n<len> (base NULL), k-th alloc callback, cyclically
+ *   allocs: k-th alloc callback, cyclically: <len> (own heap block; 0 = refusal with a non-NULL base) |
+ *           n<len> (base NULL; n0 = refusal storing NULL/0) | k (refusal by not touching *buf)
  * output: <trace> ; <oracle log> ; <msghdr log>
  *   msghdr log: for every recvmsg on the stream, as offered by libuv: msg_controllen,
  *   msg_control != NULL, msg_iovlen, msg_flags on entry, and MSG_CTRUNC on return
  *   trace tokens (ocaml/drv_c06.ml prints the same, except the upper-case
- *   harness-only tokens W<total> G<total> H Q U K M B<n> V<ret> N<ret> Y<status> O<0/1> D<n> Z<k> E<n>,<idle>;
+ *   harness-only tokens W<total> G<total> H Q U K M B<n> V<ret> N<ret> Y<status> O<0/1> D<n> Z<k> E<n>,<idle> Jr<id> Jb<id>,<n>;
+ *   Jr = read()/recvmsg() was pointed at memory that is not the block of the current alloc_cb (id of the
+ *   already returned block, or -1), Jb = block <id> handed back for the n-th time,
  *   D = uv_pipe_pending_count() after the call (ipc),
  *   O = POLLOUT requested when epoll_pwait was called, V = uv_write returned, Y = write_cb status,
  *   G = that write carried a descriptor, B<n> = n bytes were still readable at this UV_EOF):
@@ -67,17 +70,33 @@ static union { uv_pipe_t pipe; uv_tcp_t tcp; uv_stream_t stream; uv_handle_t han
 static uv_prepare_t keepalive;
 static int g_fd = -1, g_peer = -1, g_active, g_quiet, g_closing, g_ipc, g_devnull = -1;
 static char* beh[MAXBEH]; static int nbeh, cbn;
-static struct { int base_ok; size_t len; } al[MAXAL]; static int nal, alloc_n;
+static struct { int base_ok; size_t len; int keep; } al[MAXAL]; static int nal, alloc_n;
 static char** script; static int nscript, script_pos;
 static FILE* olog; static char* olog_buf; static size_t olog_len;
 static FILE* mlog; static char* mlog_buf; static size_t mlog_len;
 static unsigned long long peer_written, kpos, delivered;
 /* the one buffer that may be outstanding */
-static struct { int live; int id; char* base; size_t len; } out;
+static struct { int live; int id; char* base; size_t len; int granted; } out;
+/* blocks already handed back: kept (not freed) for a while so that a read into one of them, or a second
+ * hand-back, is seen by bookkeeping instead of corrupting the heap */
+#define NQ 64
+static struct { char* p; size_t len; int id; int times; } quar[NQ]; static int quar_pos;
+static int quar_find(const char* p) {
+  int i; if (!p) return -1;
+  for (i = 0; i < NQ; i++) if (quar[i].p && p >= quar[i].p && p < quar[i].p + (quar[i].len ? quar[i].len : 1)) return i;
+  return -1;
+}
+static void quar_add(char* p, size_t len, int id) {
+  if (quar[quar_pos].p) free(quar[quar_pos].p);
+  quar[quar_pos].p = p; quar[quar_pos].len = len; quar[quar_pos].id = id; quar[quar_pos].times = 1;
+  quar_pos = (quar_pos + 1) % NQ;
+}
+static void quar_clear(void) { int i; for (i = 0; i < NQ; i++) { free(quar[i].p); quar[i].p = NULL; } quar_pos = 0; }
 /* override of the next poll */
 static int ov_kind; static unsigned ov_mask; static unsigned last_given;
 
 static void do_ops(char* ops, int in_cb);
+static void check_target(const void* p);
 
 static unsigned char pat(unsigned long long i) {
   return (unsigned char) (i * 167u + (i >> 8) * 13u + (i >> 16) + 1u);
@@ -117,6 +136,7 @@ static void log_result(size_t len, size_t cap, ssize_t r, int e) {
 ssize_t __wrap_read(int fd, void* buf, size_t n) {
   size_t cap; int e; ssize_t r;
   if (!g_active || fd != g_fd) return __real_read(fd, buf, n);
+  check_target(buf);
   if (scripted(n, &cap, &e)) { log_fail(n, e); errno = e; return -1; }
   r = __real_read(fd, buf, cap); e = errno;
   log_result(n, cap, r, e);
@@ -131,6 +151,7 @@ ssize_t __wrap_recvmsg(int fd, struct msghdr* m, int flags) {
   fprintf(mlog, "%zu,%d,%zu,%d", (size_t) m->msg_controllen, m->msg_control != NULL,
           (size_t) m->msg_iovlen, m->msg_flags);
   if (m->msg_iovlen != 1) { fprintf(mlog, ",0 "); return __real_recvmsg(fd, m, flags); }
+  check_target(m->msg_iov[0].iov_base);
   n = m->msg_iov[0].iov_len;
   if (scripted(n, &cap, &e)) { fprintf(mlog, ",0 "); log_fail(n, e); errno = e; return -1; }
   mm = *m; iv = m->msg_iov[0]; iv.iov_len = cap; mm.msg_iov = &iv;
@@ -188,23 +209,44 @@ ssize_t __wrap_sendmsg(int fd, const struct msghdr* m, int fl) {
 /* ---- callbacks ---- */
 static void alloc_cb(uv_handle_t* hd, size_t suggested, uv_buf_t* buf) {
   int k = alloc_n++;
-  int base_ok = 1; size_t len = 65536;
+  int base_ok = 1, keep = 0; size_t len = 65536;
   (void) hd;
-  if (nal > 0) { base_ok = al[k % nal].base_ok; len = al[k % nal].len; }
+  if (nal > 0) { base_ok = al[k % nal].base_ok; len = al[k % nal].len; keep = al[k % nal].keep; }
   if (g_quiet) { buf->base = NULL; buf->len = 0; return; }
   if (out.live) printf("A!");          /* previous buffer never handed back */
-  out.live = 1; out.id = k; out.len = len;
-  out.base = base_ok ? malloc(len ? len : 1) : NULL;
+  out.live = 1; out.id = k;
+  if (keep) {                          /* refusal by leaving *buf as libuv prepared it */
+    out.granted = 0; out.base = buf->base; out.len = buf->len;
+    printf("A%d,%zu,%d,%zu ", k, suggested, buf->base != NULL, (size_t) buf->len);
+    return;
+  }
+  out.len = len; out.granted = base_ok;
+  out.base = base_ok ? malloc(len ? len : 1) : NULL;   /* every granted buffer is its own heap block */
   if (out.base) memset(out.base, 0xEE, len ? len : 1);
   buf->base = out.base; buf->len = len;
   printf("A%d,%zu,%d,%zu ", k, suggested, base_ok, len);
+}
+
+/* where read()/recvmsg() is told to put the data: must be the block granted by the current alloc_cb */
+static void check_target(const void* p) {
+  if (g_quiet) return;
+  if (!(out.live && out.granted && (const char*) p == out.base)) {
+    int q = quar_find(p);
+    printf("Jr%d ", q >= 0 ? quar[q].id : -1);
+  }
 }
 
 static void on_read(int tok, uv_stream_t* s, ssize_t nread, const uv_buf_t* buf) {
   char id[32];
   (void) s;
   if (g_quiet) return;
-  if (out.live && buf->base == out.base && buf->len == out.len) {
+  if (quar_find(buf->base) >= 0) {      /* a block that was already handed back */
+    int q = quar_find(buf->base);
+    quar[q].times++;
+    printf("Jb%d,%d ", quar[q].id, quar[q].times);
+    strcpy(id, "?");
+    if (out.live && !out.granted) out.live = 0;
+  } else if (out.live && buf->base == out.base && buf->len == out.len) {
     snprintf(id, sizeof id, "%d", out.id);
   } else if (buf->base == NULL && buf->len == 0) strcpy(id, "-");
   else strcpy(id, "?");
@@ -232,7 +274,10 @@ static void on_read(int tok, uv_stream_t* s, ssize_t nread, const uv_buf_t* buf)
       if (left > 0) printf("B%zd ", left);
     }
   }
-  if (id[0] != '-' && id[0] != '?') { free(out.base); out.live = 0; out.base = NULL; }
+  if (id[0] != '-' && id[0] != '?') {
+    if (out.granted && out.base) quar_add(out.base, out.len, out.id);
+    out.live = 0; out.base = NULL; out.granted = 0;
+  }
   {
     int k = cbn++;
     if (k < nbeh) { char* copy = strdup(beh[k]); do_ops(copy, 1); free(copy); }
@@ -396,8 +441,9 @@ static void run_case(char* line) {
   }
   nal = 0; alloc_n = 0;
   for (t = strtok_r(sec[3], " \n", &save); t && nal < MAXAL; t = strtok_r(NULL, " \n", &save)) {
-    al[nal].base_ok = t[0] != 'n';
-    al[nal].len = strtoull(t[0] == 'n' ? t + 1 : t, NULL, 10);
+    al[nal].keep = t[0] == 'k';
+    al[nal].base_ok = t[0] != 'n' && t[0] != 'k';
+    al[nal].len = al[nal].keep ? 0 : strtoull(t[0] == 'n' ? t + 1 : t, NULL, 10);
     nal++;
   }
   nscript = 0; script_pos = 0;
@@ -408,7 +454,7 @@ static void run_case(char* line) {
     } }
   olog = open_memstream(&olog_buf, &olog_len);
   mlog = open_memstream(&mlog_buf, &mlog_len);
-  g_quiet = 0; g_closing = 0; nwr = 0; peer_written = 0; kpos = 0; delivered = 0; out.live = 0; out.base = NULL; ov_kind = 0;
+  g_quiet = 0; g_closing = 0; nwr = 0; peer_written = 0; kpos = 0; delivered = 0; out.live = 0; out.base = NULL; out.granted = 0; ov_kind = 0;
 
   if (make_pair(fds)) { printf("nosocket ; ; \n"); return; }
   g_fd = fds[0]; g_peer = fds[1];
@@ -438,7 +484,9 @@ static void run_case(char* line) {
   uv_loop_close(&loop);
   if (g_peer >= 0) close(g_peer);
   g_fd = g_peer = -1;
-  if (out.base) { free(out.base); out.base = NULL; }
+  if (out.base && out.granted) free(out.base);
+  out.base = NULL; out.granted = 0;
+  quar_clear();
   fclose(olog); fclose(mlog);
   printf("; %s; %s\n", olog_buf, mlog_buf);
   free(olog_buf); free(mlog_buf); free(script);
